@@ -26,13 +26,26 @@ def listOpOfJ : J → Option ListOp
   | .arr [.str "pop", .int i] => some (.pop i)
   | .arr [.str "remove", v] => (valOfJ v).map .remove
   | .arr [.str "extend", .arr vs] => (vs.mapM valOfJ).map .extend
+  | .arr [.str "extend_iter", .arr vs] => (vs.mapM valOfJ).map .extend
   | .arr [.str "iadd", .arr vs] => (vs.mapM valOfJ).map .extend
+  | .arr [.str "iadd_iter", .arr vs] => (vs.mapM valOfJ).map .extend
   | .arr [.str "imul", .int n] => some (.imul n)
   | .arr [.str "clear"] => some .clear
   | .arr [.str "sort"] => some .sort
   | .arr [.str "reverse"] => some .reverse
   | .arr [.str "rebind", .arr kvs] => (kvs.mapM rbOfJ).map .rebind
   | _ => none
+
+/-- A write argument: a value, or `["typed", <spec state>, <allow_partial>, <content>]`. -/
+def argOfJ : J → Option Arg
+  | .arr [.str "typed", sj, .bool sp, v] => do
+    pure (.typed (← specOfJ sj) sp (← valOfJ v))
+  | v => (valOfJ v).map .plain
+
+def akvsOfJ (xs : List J) : Option (List (String × Arg)) :=
+  xs.mapM fun (x : J) => match x with
+    | J.arr [J.str k, v] => (argOfJ v).map fun v' => (k, v')
+    | _ => none
 
 def kvsOfJ (xs : List J) : Option (List (String × Val)) :=
   xs.mapM fun (x : J) => match x with
@@ -41,14 +54,14 @@ def kvsOfJ (xs : List J) : Option (List (String × Val)) :=
 
 /-- `[op, scope]`: scope = null | bool (an enclosing `pg.allow_partial(scope)`). -/
 def dictOpOfJ : J → Option DictOp
-  | .arr [.str "setitem", .str k, v] => (valOfJ v).map (.setitem k)
-  | .arr [.str "setattr", .str k, v] => (valOfJ v).map (.setitem k)
+  | .arr [.str "setitem", .str k, v] => (argOfJ v).map (.setitem k)
+  | .arr [.str "setattr", .str k, v] => (argOfJ v).map (.setitem k)
   | .arr [.str "delitem", .str k] => some (.delitem k)
   | .arr [.str "pop", .str k] => some (.delitem k)
-  | .arr [.str "setdefault", .str k, v] => (valOfJ v).map (.setdefault k)
-  | .arr [.str "update", .arr kvs] => (kvsOfJ kvs).map .update
-  | .arr [.str "ior", .arr kvs] => (kvsOfJ kvs).map .update
-  | .arr [.str "rebind", .arr kvs] => (kvsOfJ kvs).map .update
+  | .arr [.str "setdefault", .str k, v] => (argOfJ v).map (.setdefault k)
+  | .arr [.str "update", .arr kvs] => (akvsOfJ kvs).map .update
+  | .arr [.str "ior", .arr kvs] => (akvsOfJ kvs).map .update
+  | .arr [.str "rebind", .arr kvs] => (akvsOfJ kvs).map .update
   | .arr [.str "clear"] => some .clear
   | .arr [.str "popitem"] => some .popitem
   | _ => none
@@ -66,7 +79,7 @@ def runDict (env : Env) (p0 : Bool) : TDict → List (DictOp × Option Bool) →
   | _, [] => []
   | d, (op, scope) :: ops =>
     let p := scope.getD p0
-    let (d', e) := dictStep env p d op
+    let (d', e) := dictStep env p hasMissing d op
     .obj [("err", errJ e), ("items", kvsToJ d'.kvs), ("conforms", .bool (conformsDB env true d')),
           ("complete", .bool (conformsDB env false d'))] :: runDict env p0 d' ops
 
